@@ -72,6 +72,24 @@ def save(obj, faults=()):
     return f.getvalue(), exc, f.counts["write"], ctx
 
 
+def all_projects(obj, depth=0):
+    """The project and every project embedded in it (MetaModules, also inside Sampler effects)."""
+    if depth > 6 or obj is None:
+        return
+    t = type(obj).__name__
+    if t == "Project":
+        yield obj
+        for m in obj.modules:
+            if m is not None:
+                yield from all_projects(m, depth + 1)
+    elif t == "Synth":
+        yield from all_projects(obj.module, depth + 1)
+    elif t == "MetaModule":
+        yield from all_projects(obj.project, depth + 1)
+    elif t == "Sampler":
+        yield from all_projects(obj.effect, depth + 1)
+
+
 def first_diff_chunk(a, b):
     ca, cb = chunkio.split(a), chunkio.split(b)
     mtype = "header"
@@ -132,13 +150,14 @@ def execute(case):
                     break
                 for key, n in env.LOG.take().items():
                     pass
-                if type(obj).__name__ == "Project":
-                    from . import c07
+                from . import c07
 
-                    try:
-                        x_links = "inconsistent" if c07.consistency_errors(obj) else "consistent"
-                    except Exception:
-                        x_links = "inconsistent"
+                try:
+                    projs = list(all_projects(obj))
+                    if projs:
+                        x_links = "inconsistent" if any(c07.consistency_errors(pp) for pp in projs) else "consistent"
+                except Exception:
+                    x_links = "inconsistent"
                 log.append((i, "load", label, type(obj).__name__, x_links))
             elif k == "build":
                 # a *live* object built through the API (never been through the reader)
@@ -316,8 +335,9 @@ def base_specs(tier, seed):
     return specs
 
 
-def perturbation(r, data):
-    danger = None
+def perturbation(r, data, depth=0):
+    if depth < 2 and r.random() < 0.2:
+        return ["in", r.randrange(8), perturbation(r, data, depth + 1)]
     for _ in range(8):
         if r.random() < 0.55:
             v = r.choice(CVAL_VALUES) if r.random() < 0.7 else r.randint(-(1 << 31), (1 << 31) - 1)
